@@ -37,6 +37,7 @@ def main():
             d = os.path.dirname(f)
             if demopkg.replace("_test", "") == os.path.basename(d):
                 cand = d
+        cand = os.environ.get("SEED_DEMO_DIR") or cand
         res["demo_dir"] = cand
         # 1. unchanged tree: demo passes
         shutil.copy(demo, os.path.join(wt, cand, "zz_seed_demo_test.go"))
